@@ -249,3 +249,37 @@ Theorem C16_translated_start_iff_documented :
   end.
 Proof. exact main_runs_iff_documented. Qed.
 Print Assumptions C16_translated_start_iff_documented.
+
+(* ---- the getters between the loaded configuration and everything that reads it (impl ServerConfig for
+   FileConfig / EnvironmentConfig, translated on this run): each of the eleven hands over the field of its own
+   name, for both sources ... *)
+Require Import RV.Proofs.CodeGetters.
+
+Theorem C16_translated_getters_are_the_loaded_fields :
+  getters_are_fields file_getters /\ getters_are_fields env_getters.
+Proof. exact (conj gen_file_getters_are_fields gen_env_getters_are_fields). Qed.
+Print Assumptions C16_translated_getters_are_the_loaded_fields.
+
+(* ... so that the translated validator, run on what the getters return, is the validator of the start-up
+   theorems above (which take the fields directly, to_settings) *)
+Theorem C16_translated_validation_reads_through_getters : forall c ds ap,
+  obind (settings_through file_getters c ds ap) gen_is_valid_config = gen_is_valid_config (to_settings c ds ap)
+  /\ obind (settings_through env_getters c ds ap) gen_is_valid_config = gen_is_valid_config (to_settings c ds ap).
+Proof. exact gen_validation_through_getters. Qed.
+Print Assumptions C16_translated_validation_reads_through_getters.
+
+(* ---- the socket address: ServerConfig::udp_socket_addr, translated on this run, hands the parser the text
+   "<interface>:<port in decimal>" of the loaded configuration — the port that is bound is the one written — and
+   turns a refusal into InvalidConfiguration *)
+Theorem C16_translated_socket_address_is_interface_and_port : forall parse c,
+  gen_udp_socket_addr parse c
+  = match parse (addr_text c) with Ok v => Ok v | Err _ => Err InvalidConfiguration | Panic p => Panic p end.
+Proof. exact gen_udp_socket_addr_model. Qed.
+Print Assumptions C16_translated_socket_address_is_interface_and_port.
+
+Theorem C16_address_text_names_the_loaded_port : forall c, 0 <= lc_port c <= tmax_u16 ->
+  exists pre, addr_text c = pre ++ to_dec (lc_port c)
+              /\ pre = lc_interface c ++ [x3a]
+              /\ parse_uint tmax_u16 (to_dec (lc_port c)) = Some (lc_port c).
+Proof. exact addr_text_names_the_port. Qed.
+Print Assumptions C16_address_text_names_the_loaded_port.
